@@ -26,7 +26,7 @@ def run(ck):
     ck.extra["op_failures"] = {}
     i = 0
     try:
-        while not ck.out_of_time():
+        while ck.more(min_cases=60):
             i += 1
             if not ck.mine(i):
                 continue
@@ -217,8 +217,6 @@ class History(object):
         try:
             self.op_create()
             for _ in range(p["nops"] - 1):
-                if ck.out_of_time():
-                    break
                 self.next_op()
         except Abort:
             pass
@@ -504,9 +502,10 @@ class History(object):
 
     def report(self, rec, opclass, ok, what, st, got, want, partial=False):
         ck = self.ck
+        # classification only (public IFilesystemNode.get_size() of the writer node, sampled before the operation):
+        # Publish.update() sizes the new version from the node's cached size instead of the version being updated
         stale = (opclass == "update-mdmf" and rec.get("node_size_before") is not None
-                 and rec["node_size_before"] != rec["len_before"]
-                 and rec["off"] + rec["len"] < rec["len_before"])
+                 and max(rec["node_size_before"], rec["off"] + rec["len"]) != max(rec["len_before"], rec["off"] + rec["len"]))
         if st == "ok":
             detail = "returned %d bytes, model has %d (first difference at byte %s)" % (len(got), len(want), firstdiff(got, want))
         elif st == "err":
@@ -546,14 +545,24 @@ def firstdiff(a, b):
     return n if len(a) != len(b) else None
 
 
-# MUST_CATCH (selftest/breaks_c09.py; run with tools/selftest.py --prop C09):
-#   c09-transforming-read-merge-off-by-one   publish.py TransformingUploadable.read old_data_offset + 1
-#   c09-transforming-read-start-off-by-one   publish.py TransformingUploadable.read old start data slice shifted
-#   c09-set-segment-tail-trim                retrieve.py _set_segment wanted + 1
-#   c09-set-segment-head-skip                retrieve.py _set_segment skip computed from the segment after
-#   c09-publish-end-segment-off-by-one       publish.py setup_encoding_parameters end_segment -= 1 dropped
-#   c09-update-end-segment-fetch             filenode.py _do_update_update end_data -= 1 dropped
-#   c09-blockhash-reuse-after-growth         publish.py update() old leaves not extended/overwritten (stale padding leaf kept)
-#   c09-modify-update-drops-tail             filenode.py _do_modify_update new += old[rest:] dropped (SDMF update)
-#   c09-decode-tail-size                     retrieve.py _decode_blocks size_to_use for tail segment
-#   c09-sdmf-iv-reuse                        not a content break (documented there): reusing the IV changes no delivered byte
+# MUST_CATCH (selftest/breaks_c09.py; tools/selftest.py --prop C09).  Result of the last run, each applied on top of
+# the one-line fix for the genuine finding below (so that only the planted break can fire): 13/13 caught.
+#   c09-transforming-read-merge-off-by-one    wrong-bytes-after-update-mdmf
+#   c09-transforming-read-start-shifted       wrong-bytes-after-update-mdmf
+#   c09-set-segment-tail-trim                 wrong-bytes-(in-partial-read-)after-*
+#   c09-set-segment-no-tail-trim-when-single  wrong-bytes-in-partial-read-after-*
+#   c09-retrieve-last-segment-off-by-one      read-fails-after-* / wrong-bytes-in-partial-read-after-*
+#   c09-publish-end-segment-off-by-one        wrong-bytes-after-update-mdmf
+#   c09-update-end-segment-fetch              wrong-bytes-after-update-mdmf
+#   c09-blockhash-reuse                       read-fails-after-update-mdmf
+#   c09-servermap-update-range-swapped        wrong-bytes-after-update-mdmf
+#   c09-modify-update-drops-byte              wrong-bytes-after-update-sdmf
+#   c09-publish-starting-segment              wrong-bytes-/read-fails-after-update-mdmf
+#   c09-update-datalength-never-grows         wrong-bytes-after-update-mdmf
+#   c09-modify-publishes-old                  wrong-bytes-after-modify / -v-modify / -update-sdmf
+# Tried and benign (documented in breaks_c09.py): SDMF IV reuse, tail decoded with the full-segment decoder, padded
+# tail size in _decode_blocks, dropping `end_data -= 1`, dropping the last old block-hash leaf (turns into an errback).
+#
+# GENUINE on the unchanged tree (key mdmf-update-uses-stale-cached-node-size): mutable/publish.py Publish.update() takes
+# the new data length from MutableFileNode.get_size() (a cache that update()/modify()/version.overwrite() never refresh)
+# instead of the version being updated; fix: `self.datalength = version[4]`.
